@@ -17,8 +17,8 @@ void harness(void)
   int fd = nondet_int();
   pipe_type *pipe = &fd;
   __CPROVER_assume(data == NULL || (IS_OPEN(fd) && IS_LIB(fd)));
-  g.in_data = data;
-  g.in_size = size;
+  gc.in_data = data;
+  gc.in_size = size;
   g.stream_pos = 0;
   g.in_fd = -1;
 #include "gen/pre_setup_input.inc"
